@@ -4,6 +4,7 @@ import (
 	"bytes"
 	"fmt"
 	"math/big"
+	"strings"
 
 	h "verif/harness"
 	"verif/models/keyreg"
@@ -47,7 +48,7 @@ func init() {
 		ID:    "C09",
 		Level: "exploration",
 		Rule: "single-purpose programs (register a variable, then one value-journal or reference-journal instruction) run on the real VM over prepared storage; the recorded bytes (Variable() and Slot()) are compared with an independent Solidity-layout decoder (models/sollayout) applied to the same storage; operands outside the decoder's domain must end the frame in an error and record nothing. " +
-			"kind grid: ALL (offset,width) in [0,33]x[0,33] plus boundary values up to 2^256-1, for 6 storage words (exhaustive for that grid); kind str: strings of every length 0..100 and 127,128,255,256,1000 x content classes {random, all zero, leading zeros, trailing zeros, 0xff} x slots {small, 2^64, hashed positions}, and every invalid length encoding (short form with length >= 32, long form with length < 32); kind mix: random programs that overwrite the variable between journals (SSTORE then journal, repeatedly) checked by an online monitor that decodes state at the journal step; " +
+			"kind grid: ALL (offset,width) in [0,33]x[0,33] plus boundary values up to 2^256-1, for 6 storage words (exhaustive for that grid); kind str: strings of every length 0..100 and 127,128,255,256,1000 x content classes {random, all zero, leading zeros, trailing zeros, 0xff} x slots {small, 2^64, hashed positions}, and every invalid length encoding (short form with length >= 32, long form with length < 32); kind mix: random programs that overwrite the variable between journals (SSTORE then journal, repeatedly) checked by an online monitor that decodes state at the journal step; kind frames: multi-frame call trees (same slot number journaled by different accounts, after reverted writes, without a store in between) under the same online decoder; " +
 			"distinct_nontrivial = distinct (instruction, operand class, word/content class, outcome) combinations observed",
 		Assumptions: []string{
 			"width = 0 is asserted only not to crash (the statement does not say whether it denotes a field)",
@@ -75,6 +76,10 @@ func init() {
 			}
 			for i := 0; i < n; i++ {
 				cs = append(cs, Case{Kind: "mix", Seed: h.Mix(seed, 0xC09A, uint64(i))})
+			}
+			// multi-frame programs: the same slot number journaled by different accounts / after reverted writes / without a store in between
+			for i := 0; i < n/3; i++ {
+				cs = append(cs, Case{Kind: "frames", Seed: h.Mix(seed, 0xC09B, uint64(i))})
 			}
 			return cs
 		},
@@ -359,6 +364,19 @@ func runC09(c Case, tier string) (res CaseResult) {
 		res.Evals = n
 	case "mix":
 		runC09Mix(c, &res)
+	case "frames":
+		// C10's call trees under the value oracle only: recorded bytes must equal the value decoded at the journal step
+		var tmp CaseResult
+		journalWorkload(c, &tmp, func(jr journalRun, label string) { checkC10(&tmp, jr, label) })
+		for _, f := range tmp.Findings {
+			if strings.HasPrefix(f.Key, "wrong-entries") || strings.HasPrefix(f.Key, "panic") {
+				res.Fail("frames:"+f.Key, "in a multi-frame program: "+f.Msg, f.Detail...)
+			}
+		}
+		res.Count("value_journals_checked", tmp.Obs["journal_entries_checked"])
+		res.Count("multi_frame_runs", tmp.Obs["runs"])
+		res.Shapes = append(res.Shapes, tmp.Shapes...)
+		res.Evals = tmp.Evals
 	}
 	return
 }
